@@ -288,6 +288,7 @@ func genPrePair(r *rt.Rand) (string, string) {
 }
 
 func runC06(c *rt.Ctx) {
+	soloRun(c, "sem")
 	Lfull, Lcheap := c.Pick(3, 4), c.Pick(4, 4)
 	c.SetRule(fmt.Sprintf("universe U_L = every valid pre-release string over {0,1,2,9,a,B,-,.} of length <= L plus the empty one; all ordered pairs of U_%d through all twelve comparison entry points, all ordered pairs of U_%d through Ver.Compare and DefaultComparePreRelease, seeded pairs of U_5; ", Lfull, Lcheap) +
 		"cores {0,1,2^63,2^64-2,2^64-1} in each position x a pre-release subset; build metadata attached at random; the specification's example chain (all 64 ordered pairs); seeded pairs of long identifier lists with 1-25 digit numeric identifiers and a shared prefix. " +
@@ -599,8 +600,47 @@ func runC06(c *rt.Ctx) {
 			}
 		})
 	}
+	// each text within the limit, the two together beyond it (the limit is per input)
+	for _, limit := range []int{oldLimit, 24, 64} {
+		sem.MaxInputLength = limit
+		c.Parallel(fmt.Sprintf("pair-lengths-around-limit-%d", limit), 0, func(w *rt.W) {
+			for k := w.Shard; k < 400; k += w.NShards {
+				r := rt.NewRand(c.Seed, "C06/pairlen", uint64(k)+uint64(limit)<<20)
+				la, lb := limit-r.Intn(3), limit/2+1+r.Intn(limit/2)
+				if k%5 == 0 {
+					la, lb = limit, limit
+				}
+				mk := func(l int, lastDigit int) sem.Ver { // "1.0.0-" + identifiers filling exactly l bytes
+					n := l - len("1.0.0-")
+					if n < 1 {
+						return sem.Ver{Major: 1}
+					}
+					var sb strings.Builder
+					for sb.Len() < n-1 {
+						if sb.Len() > 0 && sb.Len()%9 == 8 && sb.Len() < n-2 {
+							sb.WriteByte('.')
+						} else {
+							sb.WriteByte("abcdefghij"[sb.Len()%10])
+						}
+					}
+					sb.WriteByte(byte('0' + lastDigit))
+					return sem.Ver{Major: 1, PreRelease: sb.String()}
+				}
+				a, b := mk(la, 1+r.Intn(9)), mk(lb, 1+r.Intn(9))
+				if len(a.String()) > limit || len(b.String()) > limit {
+					continue
+				}
+				c06Pair(w, a, b, true)
+				c06Pair(w, b, a, true)
+				if len(a.String())+len(b.String()) > limit {
+					w.ClassN("pair-within-limit-each-beyond-it-together", 1)
+				}
+			}
+		})
+	}
 	sem.MaxInputLength = oldLimit
 	c.Require("long-text-pair", 2000)
+	c.Require("pair-within-limit-each-beyond-it-together", 600)
 	for _, cl := range []string{"numeric-vs-numeric-different-digit-count", "numeric-vs-numeric-same-digit-count", "numeric-vs-alphanumeric", "alphanumeric-vs-alphanumeric", "identifier-list-is-prefix-of-other", "release-vs-prerelease", "equal", "excluded"} {
 		c.Require(cl, 100)
 	}
